@@ -38,6 +38,7 @@ def run(res, args):
         if x:
             xs.append(x)
     xs += [xmlgen.syncml_xml(rng) for _ in range(150 if quick else 6000)]
+    xs += xmlgen.ambiguous_name_docs(d, rng, 25 if quick else 100000)
     opts = [(rng.choice([0, 1, 2, 3, 3]), rng.choice([0, 1]), rng.choice([0, 1])) for _ in xs]   # version, keepws, strtbl
     env = b.env()
 
